@@ -357,6 +357,8 @@ def unique(x, axis=None, return_index=False, return_counts=False):
 
     numpy raises TypeError for object arrays with axis != None; the caller passes the
     dtype through ndarray._dtype (see sympd.DataFrame.to_numpy)."""
+    if return_index or return_counts:
+        raise E.Unsupported("unique: argument value outside the modelled subset")
     from .sympd import sort_positions
     if isinstance(x, ndarray) and axis is not None:
         if x.dtype.name == "object":
@@ -410,6 +412,8 @@ def arange(*a, dtype=None):
 
 
 def concatenate(arrs, axis=0):
+    if axis != 0:
+        raise E.Unsupported("concatenate: argument value outside the modelled subset")
     out = []
     for a in arrs:
         out.extend(_cells(a))
@@ -417,14 +421,20 @@ def concatenate(arrs, axis=0):
 
 
 def sum(x, axis=None):  # noqa: A001
+    if axis not in (None, 0) or (axis == 0 and isinstance(x, ndarray) and x.ndim == 2):
+        raise E.Unsupported("sum: argument value outside the modelled subset")
     return _fold(_cells(x), lambda a, b: a + b, 0)
 
 
 def max(x, axis=None):  # noqa: A001
+    if axis not in (None, 0) or (axis == 0 and isinstance(x, ndarray) and x.ndim == 2):
+        raise E.Unsupported("max: argument value outside the modelled subset")
     return _fold(_cells(x), E.smax, None)
 
 
 def min(x, axis=None):  # noqa: A001
+    if axis not in (None, 0) or (axis == 0 and isinstance(x, ndarray) and x.ndim == 2):
+        raise E.Unsupported("min: argument value outside the modelled subset")
     return _fold(_cells(x), E.smin, None)
 
 
